@@ -737,3 +737,11 @@ func wrapsKey(pa *Path, v AV, ok func(key string) bool) bool {
 	}
 	return rec(stripConvAll(v).Key())
 }
+
+// closeWriter is the function that marshals and writes a close frame: writeCloseCtx, or writeClose on trees without it.
+func (p *Program) closeWriter() *ssa.Function {
+	if fn := p.FuncOpt("Conn.writeCloseCtx"); fn != nil {
+		return fn
+	}
+	return p.Func("Conn.writeClose")
+}
